@@ -95,6 +95,29 @@ def duplicate_operand(rng, t):
     return (op, t, copy.deepcopy(t))
 
 
+def reorder_maps(x):
+    """the same recipe with the entries of every mapping ARGUMENT (and the keyword arguments of items_contain) listed
+    in reverse order: the same definition"""
+    def rev_val(v):
+        if isinstance(v, dict):
+            return {k: rev_val(w) for k, w in reversed(list(v.items()))}
+        if isinstance(v, list):
+            return [rev_val(w) for w in v]
+        return v
+    if isinstance(x, tuple):
+        if x and x[0] == "leaf":
+            rec = dict(x[1])
+            rec["actuals"] = [rev_val(a) for a in rec["actuals"]]
+            rec["akw"] = {k: rev_val(v) for k, v in reversed(list(rec["akw"].items()))}
+            return ("leaf", rec)
+        return tuple(reorder_maps(i) for i in x)
+    if isinstance(x, list):
+        return [reorder_maps(i) for i in x]
+    if isinstance(x, dict):
+        return {k: reorder_maps(v) for k, v in x.items()}
+    return x
+
+
 def commute(t):
     if t[0] in ("and", "or", "xor"):
         return (t[0], t[2], t[1])
@@ -198,12 +221,12 @@ def make_family(rng, kind):
         x = gen.tree_recipe(rng, depth=rng.choice([0, 1, 2, 3]), kinds=[("value", "none"), ("value", "length"), ("value", "dtype")], null_p=0.05)
         if rng.random() < 0.3:
             x = duplicate_operand(rng, x)       # a combination of two EQUAL operands, against its one-sided mutants
-        vs = [x, copy.deepcopy(x), commute(x)] + [mutate_tree(rng, x) for _ in range(nmut)]
+        vs = [x, reorder_maps(copy.deepcopy(x)), commute(x)] + [mutate_tree(rng, x) for _ in range(nmut)]
         if x[0] in ("and", "or", "xor"):
             vs += [(x[0], mutate_tree(rng, x[1]), x[2]), (x[0], x[1], mutate_tree(rng, x[2]))]
     elif kind == "part":
         x = gen.part_recipe(rng, doc)
-        vs = [x, copy.deepcopy(x), copy.deepcopy(x)] + [mutate_part(rng, x) for _ in range(nmut)]
+        vs = [x, copy.deepcopy(x), reorder_maps(copy.deepcopy(x))] + [mutate_part(rng, x) for _ in range(nmut)]
     elif kind == "path":
         rp = gen.path_recipe(rng, doc, maxlen=3) or [gen.prim_part(rng, doc)]
         x = {"rparts": rp, "dt": "none", "mt": "none"}
@@ -223,7 +246,7 @@ def make_family(rng, kind):
         x = ruledrv.rule_recipe(rng, doc, cast_p=0.3, maxlen=2)
         if rng.random() < 0.25:
             x["cond"] = duplicate_operand(rng, x["cond"])
-        vs = [x, copy.deepcopy(x), dict(x, cond=commute(x["cond"]))]
+        vs = [x, reorder_maps(copy.deepcopy(x)), dict(x, cond=commute(x["cond"]))]
         for _ in range(nmut):
             y = copy.deepcopy(x)
             r = rng.random()
@@ -237,7 +260,7 @@ def make_family(rng, kind):
             vs.append(y)
     else:
         x = [ruledrv.rule_recipe(rng, doc, cast_p=0.2, maxlen=2) for _ in range(rng.choice([1, 2]))]
-        vs = [x, copy.deepcopy(x), [dict(r, cond=commute(r["cond"])) for r in x]]
+        vs = [x, reorder_maps(copy.deepcopy(x)), [dict(r, cond=commute(r["cond"])) for r in x]]
         for _ in range(nmut):
             y = copy.deepcopy(x)
             j = rng.randrange(len(y))
